@@ -150,10 +150,10 @@ Proof.
     apply pd_del_inv in E. destruct E as [-> Ic].
     assert (filter (fun x => negb (mem x cs)) (remove_elem c (cols t)) = filter (fun x => negb (mem x (c :: cs))) (cols t)) as FF.
     { unfold remove_elem. rewrite filter_filter. apply filter_ext. intros x. cbn [mem].
-      unfold eqb. destruct (eq_dec c x) as [->|n]; destruct (eq_dec x c) as [e|n']; try congruence; reflexivity. }
-    destruct (IH _ _ H) as [[-> ->]|->].
+      unfold eqb. destruct (eq_dec c x), (eq_dec x c); try congruence; reflexivity. }
+    destruct (IH _ _ H) as [[-> ->] | ->].
     + cbn [mem negb]. f_equal. unfold remove_elem. apply filter_ext. intros x. unfold eqb.
-      destruct (eq_dec c x) as [->|n]; destruct (eq_dec x c) as [e|n']; try congruence; reflexivity.
+      destruct (eq_dec c x), (eq_dec x c); try congruence; reflexivity.
     + cbn [cols sem_select_cols]. rewrite select_select by (intros x I; apply filter_In in I; tauto). rewrite FF. reflexivity.
 Qed.
 
@@ -162,10 +162,118 @@ Lemma fold_del_rows cs t t' : fold_left (fun acc c => r <- acc ;; pd_del c r) cs
   cols t' = filter (fun x => negb (mem x cs)) (cols t) /\ width_ok t' /\ List.length (rows t') = List.length (rows t) /\
   Forall2 (fun r' r => forall x, get (cols t') r' x = if mem x (cols t') then get (cols t) r x else VNull) (rows t') (rows t).
 Proof.
-  intros H W. destruct (fold_del_spec _ _ _ H) as [[-> ->]|->].
+  intros H W. destruct (fold_del_spec _ _ _ H) as [[-> ->] | ->].
   - cbn [mem negb]. rewrite filter_true. split; [reflexivity|]. split; [exact W|]. split; [reflexivity|].
     rewrite <- (map_id (rows t)) at 1. rewrite <- (map_id (rows t)) at 2. apply Forall2_map_same. intros r _ x.
     destruct (mem x (cols t)) eqn:M; [reflexivity|]. apply get_absent, mem_false, M.
   - cbn [cols rows sem_select_cols]. split; [reflexivity|]. split; [apply width_select_cols|]. split; [apply map_length|].
     rewrite <- (map_id (rows t)) at 2. apply Forall2_map_same. intros r _ x. apply get_map_cols.
+Qed.
+
+(* the normal path: res[c] = new[c] for every column of new, per row a fold of set_cell *)
+Definition row_fold (cn : list string) (ks : list string) (st : list val * list string) (rn : list val) : list val * list string :=
+  fold_left (fun (acc : list val * list string) k => (set_cell (snd acc) (fst acc) k (get cn rn k), add_end (snd acc) k)) ks st.
+
+Lemma row_fold_cols cn ks : forall row ccs rn, snd (row_fold cn ks (row, ccs) rn) = fold_left add_end ks ccs.
+Proof. induction ks as [|k ks IH]; intros row ccs rn; simpl; [reflexivity|]. apply IH. Qed.
+Lemma row_fold_length cn ks : forall row ccs rn, List.length row = List.length ccs ->
+  List.length (fst (row_fold cn ks (row, ccs) rn)) = List.length (fold_left add_end ks ccs).
+Proof. induction ks as [|k ks IH]; intros row ccs rn L; simpl; [exact L|]. apply IH. apply set_cell_length, L. Qed.
+Lemma row_fold_get cn ks : forall row ccs rn x, List.length row = List.length ccs ->
+  get (fold_left add_end ks ccs) (fst (row_fold cn ks (row, ccs) rn)) x = if mem x ks then get cn rn x else get ccs row x.
+Proof.
+  induction ks as [|k ks IH]; intros row ccs rn x L; [reflexivity|].
+  change (row_fold cn (k :: ks) (row, ccs) rn) with (row_fold cn ks (set_cell ccs row k (get cn rn k), add_end ccs k) rn).
+  cbn [fold_left]. rewrite IH by (apply set_cell_length, L). cbn [mem].
+  destruct (mem x ks) eqn:M; [destruct (eq_dec x k); reflexivity|].
+  rewrite (set_cell_get _ _ _ _ _ L). destruct (eq_dec x k) as [->|n]; reflexivity.
+Qed.
+
+Lemma fold_setcol_spec new ks : forall acc u,
+  (forall k, In k ks -> In k (cols new)) -> List.length (rows acc) = List.length (rows new) ->
+  fold_left (fun a c => r <- a ;; vs <- pd_col c new ;; pd_set_col c vs r) ks (Some acc) = Some u ->
+  u = mktable (fold_left add_end ks (cols acc))
+              (map (fun p => fst (row_fold (cols new) ks (fst p, cols acc) (snd p))) (combine (rows acc) (rows new))).
+Proof.
+  induction ks as [|k ks IH]; intros acc u S L H.
+  - simpl in H. inversion H; subst. cbn [fold_left]. unfold row_fold. cbn [fold_left fst].
+    rewrite <- (map_map (fun p : list val * list val => fst p) (fun r => r)), map_id, map_fst_combine by exact L. symmetry. apply table_eta.
+  - cbn [fold_left] in H. unfold obind at 2 in H. unfold pd_col in H.
+    assert (mem k (cols new) = true) as Mk by (apply mem_In, S; left; reflexivity). rewrite Mk in H. cbn [obind] in H.
+    unfold pd_set_col in H. unfold getcol, nrows in H. rewrite map_length, <- L, Nat.eqb_refl in H.
+    apply IH in H; [|intros k' I; apply S; right; exact I|cbn [rows]; rewrite map_length, combine_length, map_length, <- L, Nat.min_id; reflexivity].
+    rewrite H. cbn [cols rows fold_left]. f_equal.
+    rewrite combine_map_r, map_map. cbn [fst snd].
+    rewrite (combine_map_zip (fun p => set_cell (cols acc) (fst p) k (get (cols new) (snd p) k))), map_map. cbn [fst snd].
+    apply map_ext. intros p. reflexivity.
+Qed.
+
+(* what add_data_frame_columns_to_data_frame_ returns, read by name: the cells of `new` where it has the column, those of `res` elsewhere *)
+Definition overlay_ok (res new u : table) : Prop :=
+  same_set (cols u) (cols res ++ cols new) /\ width_ok u /\
+  Forall2 (fun ru p => forall x, get (cols u) ru x = if mem x (cols new) then get (cols new) (snd p) x else get (cols res) (fst p) x)
+          (rows u) (combine (rows res) (rows new)).
+
+Lemma Forall2_combine_l {A B} (P : A -> A * B -> Prop) (l : list A) (m : list B) :
+  List.length l = List.length m -> (forall a b, In (a, b) (combine l m) -> P a (a, b)) -> Forall2 P l (combine l m).
+Proof.
+  revert m. induction l as [|a l IH]; intros [|b m] L H; simpl in *; try discriminate; constructor.
+  - apply H. left. reflexivity.
+  - apply IH; [lia|]. intros x y I. apply H. right. exact I.
+Qed.
+Lemma Forall2_combine_r {A B} (P : B -> A * B -> Prop) (l : list A) (m : list B) :
+  List.length l = List.length m -> (forall a b, In (a, b) (combine l m) -> P b (a, b)) -> Forall2 P m (combine l m).
+Proof.
+  revert m. induction l as [|a l IH]; intros [|b m] L H; simpl in *; try discriminate; constructor.
+  - apply H. left. reflexivity.
+  - apply IH; [lia|]. intros x y I. apply H. right. exact I.
+Qed.
+
+Lemma add_columns_spec res new u :
+  width_ok res -> width_ok new -> nrows res = nrows new -> add_columns res new = Some u -> overlay_ok res new u.
+Proof.
+  intros Wr Wn L. unfold add_columns, ncols, nrows in *.
+  destruct (Nat.ltb (List.length (cols new)) 1) eqn:E1.
+  { (* no new column *)
+    intros H. inversion H; subst. apply ltb1_nil in E1. unfold overlay_ok. rewrite E1, app_nil_r.
+    split; [apply same_set_refl|]. split; [exact Wr|]. apply Forall2_combine_l; [exact L|]. intros a b _ x. reflexivity. }
+  replace (Nat.eqb (List.length (rows res)) 0 && Nat.ltb 0 (List.length (rows new))) with false.
+  2:{ symmetry. destruct (Nat.eqb (List.length (rows res)) 0) eqn:E0; [|reflexivity]. apply Nat.eqb_eq in E0. rewrite <- L, E0. reflexivity. }
+  rewrite L, Nat.eqb_refl. cbn [andb].
+  destruct (Nat.ltb (List.length (cols res)) 1) eqn:E2.
+  { (* res has no column: new is returned *)
+    intros H. inversion H; subst. apply ltb1_nil in E2. unfold overlay_ok. rewrite E2. cbn [app].
+    split; [apply same_set_refl|]. split; [exact Wn|]. apply Forall2_combine_r; [exact L|]. intros a b _ x.
+    destruct (mem x (cols u)) eqn:M; [reflexivity|]. cbn [snd fst]. rewrite (get_absent (cols u) b x) by (apply mem_false, M). reflexivity. }
+  destruct (Nat.ltb (List.length (cols res)) (2 * List.length (cols new))) eqn:E3.
+  - (* lots of columns path *)
+    destruct (fold_left _ (set_inter (cols res) (cols new)) (Some res)) as [res'|] eqn:Ed; cbn [obind]; [|discriminate].
+    destruct (fold_del_rows _ _ _ Ed Wr) as [C' [W' [L' F']]].
+    unfold pd_concat_cols, nrows. rewrite L', L, Nat.eqb_refl. intros H. inversion H; subst. clear H.
+    assert (forall x, In x (cols res') <-> In x (cols res) /\ ~ In x (cols new)) as Ic.
+    { intros x. rewrite C', filter_In, negb_true_iff, mem_false, In_set_inter. tauto. }
+    unfold overlay_ok. cbn [cols rows]. split; [|split].
+    + intros x. rewrite !in_app_iff, Ic. destruct (in_dec string_dec x (cols new)); tauto.
+    + unfold width_ok. cbn [cols rows]. apply Forall_forall. intros r I. apply in_map_iff in I. destruct I as [[a b] [<- I]].
+      cbn [fst snd]. rewrite !app_length. unfold width_ok in W', Wn. rewrite Forall_forall in W', Wn.
+      rewrite (W' a (in_combine_l _ _ _ _ I)), (Wn b (in_combine_r _ _ _ _ I)). reflexivity.
+    + (* rows: (r' ++ rn) against (r, rn) *)
+      clear Ed E1 E2 E3. revert F' L' L W' Wn. generalize (rows res') as R'. generalize (rows res) as R. generalize (rows new) as Rn.
+      intros Rn R R' F'. revert Rn. induction F' as [|r' r R' R Hr F' IH]; intros Rn L' L W' Wn; destruct Rn as [|rn Rn]; simpl in *; try discriminate; constructor.
+      * intros x. cbn [fst snd]. inversion W' as [|? ? Lr' W'']; subst. inversion Wn as [|? ? Lrn Wn'']; subst.
+        destruct (mem x (cols new)) eqn:M.
+        -- apply mem_In in M. rewrite get_app_r; [reflexivity|exact Lr'|]. intros I. apply Ic in I. tauto.
+        -- apply mem_false in M. destruct (in_dec string_dec x (cols res)) as [I|N].
+           ++ rewrite get_app_l; [|exact Lr'|apply Ic; tauto]. rewrite (Hr x).
+              replace (mem x (cols res')) with true by (symmetry; apply mem_In, Ic; tauto). reflexivity.
+           ++ rewrite get_app_r; [|exact Lr'|intros I; apply Ic in I; tauto]. rewrite (get_absent _ _ _ M), (get_absent _ _ _ N). reflexivity.
+      * apply IH; try lia; [inversion W'; assumption|inversion Wn; assumption].
+  - (* normal path *)
+    intros H. apply fold_setcol_spec in H; [|intros k I; exact I|exact L]. subst u.
+    unfold overlay_ok. cbn [cols rows]. split; [|split].
+    + intros x. rewrite In_fold_add_end, in_app_iff. tauto.
+    + unfold width_ok. cbn [cols rows]. apply Forall_forall. intros r I. apply in_map_iff in I. destruct I as [[a b] [<- I]].
+      cbn [fst snd]. apply row_fold_length. unfold width_ok in Wr. rewrite Forall_forall in Wr. apply Wr. eapply in_combine_l, I.
+    + rewrite <- (map_id (combine (rows res) (rows new))) at 2. apply Forall2_map_same. intros [a b] I x. cbn [fst snd].
+      apply row_fold_get. unfold width_ok in Wr. rewrite Forall_forall in Wr. apply Wr. eapply in_combine_l, I.
 Qed.
